@@ -71,7 +71,16 @@ pub fn emit(e: &mut Emitter, seed: u64, thorough: bool) {
             let what = format!("exp_from_bits_const_base / exp / exp_u64 with {nbits} exponent bits, {routed} routed wires");
             e.stage(&format!("impl: building+proving {what}"));
             match std::panic::catch_unwind(std::panic::AssertUnwindSafe(|| { let (d, pw) = prog.build(config.clone()); let p = d.prove(pw)?; d.verify(p.clone())?; anyhow::Ok(p) })) {
-                Ok(Ok(p)) => if p.public_inputs != expected { e.oracle_failures.push(format!("public inputs differ from direct evaluation (the circuit computes the wrong power); {what}")); },
+                Ok(Ok(p)) => {
+                    if p.public_inputs != expected { e.oracle_failures.push(format!("public inputs differ from direct evaluation (the circuit computes the wrong power); {what}")); }
+                    // the real proof's public inputs against the Lean reference semantics (evalProg has no
+                    // constant-base operation: the equivalent program holds the base in a Const)
+                    if let Op::ExpConstBase(cb, _, _) = prog.ops[2] {
+                        let lean_prog = Prog { ops: vec![prog.ops[0].clone(), prog.ops[1].clone(), Op::Const(cb), Op::ExpBits(2, 0, nbits), Op::ExpBits(1, 0, nbits), Op::ExpU64(1, exp | 1), Op::Public(3), Op::Public(4), Op::Public(5)], tables: vec![], skip_connect: false };
+                        let got = p.public_inputs.clone();
+                        e.case("evalProg (exponentiation gadgets, narrow rows)", format!("c01 prog {}", join(lean_prog.encode().iter())), || join(got.iter().map(|x| x.to_canonical_u64())));
+                    }
+                },
                 Ok(Err(er)) => e.oracle_failures.push(format!("prove/verify failed on a satisfiable circuit: {er:#}; {what}")),
                 Err(_) => e.oracle_failures.push(format!("building a circuit for an ordinary gadget call panicked; {what}")),
             }
